@@ -54,9 +54,17 @@ func allocTerm(g *term.Gen, sites int) *term.Term {
 	}
 	var site func(depth int) *term.Term
 	site = func(depth int) *term.Term {
-		switch k := r.Intn(9); {
+		switch k := r.Intn(10); {
 		case k <= 2 || depth > 2:
 			return must(term.Binary(sc, "..", bound(), bound()))
+		case k == 9:
+			// membership in a range whose bounds are chosen at run time: the
+			// range is built to be searched
+			lo, hi := bound(), bound()
+			if r.Bool() {
+				lo, hi = id(r.Pick([]string{"A", "B", "Z"})), id(r.Pick([]string{"A", "B", "C"}))
+			}
+			return must(term.Binary(sc, r.Pick([]string{"in", "not in"}), id(r.Pick([]string{"A", "B", "C", "Z", "I"})), must(term.Binary(sc, "..", lo, hi))))
 		case k == 3:
 			// array literal of run-time values (possibly nested allocations)
 			n := r.Intn(5)
@@ -106,7 +114,7 @@ func allocTerm(g *term.Gen, sites int) *term.Term {
 	var el []*term.Term
 	for i := 0; i < sites; i++ {
 		s := site(0)
-		if r.Bool() {
+		if r.Bool() && s.T != term.BoolT {
 			s = must(term.Len(sc, s))
 		}
 		el = append(el, s)
@@ -262,7 +270,7 @@ func c06DynamicBounds(c *runner.Ctx) {
 	defer func() { vm.MemoryBudget = save }()
 	for _, budget := range []int{10, defaultBudget} {
 		vm.MemoryBudget = budget
-		for _, v := range []float64{1e19, math.Inf(1), -1e19, math.Inf(-1), math.NaN()} {
+		for _, v := range []float64{1e19, math.Inf(1), -1e19, math.Inf(-1), math.NaN(), 9223372036854775808, -9223372036854775808, 9223372036854777856, -9223372036854777856} {
 			for _, src := range []string{"0..AnyF", "AnyF..0", "len(A..AnyF)"} {
 				c.Begin(fmt.Sprintf("dynamic bound: %s AnyF=%v budget=%d", src, v, budget))
 				e := envs.New(&envs.Log{})
@@ -307,6 +315,7 @@ func c06Case(c *runner.Ctx, idx uint64) {
 		sites = 1 + r.Intn(3)
 	}
 	var t *term.Term
+	fromAlloc := true
 	func() {
 		defer func() {
 			if rec := recover(); rec != nil {
@@ -315,6 +324,7 @@ func c06Case(c *runner.Ctx, idx uint64) {
 		}()
 		if idx%5 == 4 {
 			// general terms of collection type as well
+			fromAlloc = false
 			t = g.Of([]reflect.Type{term.ArrT, term.IntsT, term.MapT, term.StrsT}[r.Intn(4)], 25)
 		} else {
 			t = allocTerm(g, sites)
@@ -416,11 +426,28 @@ func c06Case(c *runner.Ctx, idx uint64) {
 		if !coOpt.Failed() && pOpt != nil {
 			m2 := &vm.VM{}
 			tr2 := mon.NewTrace(pOpt, nil)
-			_, _, pan2 := mon.RunTraced(m2, pOpt, *pair.Real, tr2)
+			out2, err2, pan2 := mon.RunTraced(m2, pOpt, *pair.Real, tr2)
 			c.Eval(1)
 			c.Count("alloc_events", int64(tr2.Allocs))
 			if pan2 != nil {
 				c.Violate("run-panic", fmt.Sprint(pan2), cas)
+			} else if fromAlloc {
+				// every allocation of these terms is sized at run time: the
+				// optimizer has nothing to build ahead, and the optimized
+				// program owes the same verdicts
+				cas2 := map[string]interface{}{"source": src, "budget": B, "reference_total_unbounded": A, "reference": refOutcome(rr), "options": "optimize",
+					"real": Outcome{Val: out2, Err: err2}.String(), "env": envBrief(pair.Real)}
+				realBudget2 := err2 != nil && strings.Contains(err2.Error(), "memory budget exceeded")
+				switch {
+				case refBudget && err2 == nil:
+					c.Violate("over-budget-run-completed:optimized", fmt.Sprintf("an optimized run that has to create >= %d elements completed (reference total %d)", B, A), cas2)
+				case !refBudget && realBudget2:
+					c.Violate("refused-below-budget:optimized", fmt.Sprintf("an optimized run creating fewer than %d elements was refused for budget reasons", B), cas2)
+				case rr.Fail == nil && err2 == nil && mon.Canon(out2) != mon.Canon(rr.Value):
+					c.Violate("value:optimized", "result of the optimized program differs from the reference under a budget", cas2)
+				default:
+					c.Count("optimized_runs_judged", 1)
+				}
 			}
 			if len(tr2.Errs) > 0 {
 				c.Violate("hook-optimized:"+sigWords(tr2.Errs[0]), "allocation accounting violated (optimized program): "+strings.Join(tr2.Errs, "; "), cas)
